@@ -727,6 +727,7 @@ class DeserializationMethodVisitor(
         if (
             is_type(cls)  # check for type first in order to have it hashable
             and cls not in JSON_TYPES  # eliminate most common types
+            and cls is not Any  # Any is a class since Python 3.11
             and self.pass_through_type(cls)
             and not is_typed_dict(cls)  # typed dict isinstance cannot be checked
         ):
